@@ -39,7 +39,12 @@ private def tnArgs? (sR sC sf a b c d : String) : Option (Int × Int × BVec × 
     * `tnexact R C f aI aX aY aZ` → `ok v`: the literal sum over all bond-index assignments (`exactValue`; 2^bonds
       terms, refused above 16 bonds);
     * `tncoset R C f aI aX aY aZ` → `n`: `cosetProb` of `f` for the MODEL's `Planar.stabilizers R C` (the spec the
-      theorem `planar_tn_value` talks about; the `cosets` op uses the real code's matrices instead). -/
+      theorem `planar_tn_value` talks about; the `cosets` op uses the real code's matrices instead);
+    * `tnvalues R C mode f aI aX aY aZ` (mode c | r | a) → `ok trace v0,v1,v2,v3`: the PROCEDURE of
+      `PlanarMPSDecoder._coset_probabilities` (`PlanarTn.cosetValuesC / R / A`: bras shared between pairs of cosets);
+      `trace` = the calls in execution order (`t` = the four `mps2d.transpose`, `c<net>:start:stop:step` = a
+      `mps2d.contract` on `tns[net]`, `i<net>` = an `inner_product` with the last column of `tns[net]`), the values are
+      integers over `D^n` (modes c, r) or rationals `p/q` over `D^n` (mode a). -/
 def c10 : List String → Option String
   | ["cosets", sS, sL, sf, a, b, c, d] => do
       let S ← parseMat? sS
@@ -104,6 +109,20 @@ def c10 : List String → Option String
   | ["tncoset", sR, sC, sf, a, b, c, d] => do
       let (R, C, f, dist) ← tnArgs? sR sC sf a b c d
       pure (toString (cosetProb dist (Planar.stabilizers R C) f))
+  | ["tnvalues", sR, sC, mode, sf, a, b, c, d] => do
+      let (R, C, f, dist) ← tnArgs? sR sC sf a b c d
+      let showE {α : Type} (sh : α → String) (tr : String) (r : Except Tensor.Err (List α)) : String :=
+        match r with
+        | .ok vs => s!"ok {tr} " ++ ",".intercalate (vs.map sh)
+        | .error e => C11.showErr e
+      let showQ (q : Rat) : String := s!"{q.num}/{q.den}"
+      let trC := PlanarTn.planTrace PlanarTn.planC
+      let trR := "t," ++ PlanarTn.planTrace PlanarTn.planR
+      match mode with
+      | "c" => pure (showE (toString : Int → String) trC (PlanarTn.cosetValuesC R C dist f))
+      | "r" => pure (showE (toString : Int → String) trR (PlanarTn.cosetValuesR R C dist f))
+      | "a" => pure (showE showQ (trC ++ "," ++ trR) (PlanarTn.cosetValuesA R C dist f))
+      | _ => none
   | _ => none
 
 end Qec.Drv
